@@ -212,7 +212,7 @@ def split_monitors(line):
         toks = seg.split(",")
         m = [t for t in toks if t.startswith("!!")]
         rest = [t for t in toks if not t.startswith("!!")]
-        mons += [re.sub(r"([:=]\d+|:[A-Za-z])$", "", t[2:]) for t in m]
+        mons += [re.sub(r"([:=]-?\d+|:[A-Za-z])$", "", t[2:]) for t in m]
         if rest:
             out.append(",".join(rest))
     return " | ".join(out), mons
